@@ -127,9 +127,42 @@ def key_of(x):
 
 
 # ---------------------------------------------------------------- C01
+def mon_c01_extra(spec, rec):
+    """runs whose ExtraArgs are (re)given through Step(cost, ExtraArgs=...): "the user's cost" is cost(x, *ExtraArgs) with
+    the arguments IN FORCE - every call must receive exactly the arguments handed over last (an empty tuple included),
+    and a finite reported best energy is the value one of the calls at the reported point returned"""
+    out = []
+    solver = spec["solver"]
+    cur = ()
+    start = 0
+    for si, sn in enumerate(rec.snaps):
+        op = sn["op"]
+        if op[0] == "step" and len(op) > 1 and "extra" in op[1]:
+            cur = tuple(float(a) for a in op[1]["extra"])
+        end = sn["n_cost_calls"]
+        for j in range(start, end):
+            if rec.cost_args[j] != cur:
+                out.append(("%s/cost-called-with-other-ExtraArgs-than-in-force" % solver,
+                            "cost call %d (during op %d) received the extra arguments %r; the arguments handed to Step last are %r" % (j, si, rec.cost_args[j], cur), {"op_index": si, "call_index": j}))
+                return out
+        start = end
+        if sn["n_stepmon"] and is_finite(sn["bestEnergy"]):
+            best = sn["bestSolution"]
+            ys = [y for (x, y) in rec.cost_calls[:end] if same_vec(x, best)]
+            if not ys:
+                out.append(("%s/best-not-evaluated" % solver, "reported best %r (energy %r) was never passed to the user's cost" % (best, sn["bestEnergy"]), {"op_index": si}))
+                return out
+            if not any(y == sn["bestEnergy"] for y in ys):
+                out.append(("%s/best-energy-mismatch/ExtraArgs" % solver, "bestEnergy %r is none of the values %r the cost returned at the reported best %r" % (sn["bestEnergy"], ys[:6], best), {"op_index": si}))
+                return out
+    return out
+
+
 def mon_c01(spec, rec):
     """fixed-configuration traces only (step / solve / finalize ops)"""
     out = []
+    if spec.get("extra_run"):
+        return mon_c01_extra(spec, rec)
     if reconfigured(spec):
         return mon_c01_reconfigured(spec, rec)
     solver = spec["solver"]
@@ -157,8 +190,19 @@ def mon_c01(spec, rec):
                     key = "%s/best-energy-mismatch" % solver
                     out.append((key, "bestEnergy %r != reducer(cost(best)) + penalty(best) = %r at best=%r" % (bE, want, best), {"op_index": si}))
         # member clause: stored energy == objective (after bounds and constraints) at that member
-        for m, e in zip(sn["population"], sn["popEnergy"]):
+        for mi, (m, e) in enumerate(zip(sn["population"], sn["popEnergy"])):
             if not is_finite(e):
+                # an energy of inf stands for "outside the strict ranges" (or "not evaluated yet"): a member that every
+                # solver has evaluated by now, whose constrained image lies INSIDE the closed box and has a finite cost,
+                # does not carry its own energy
+                evaluated_by_now = sn["generations"] >= 1 and e == INF
+                if evaluated_by_now and box is not None and not vector_pen and not spec.get("pushing") and solver != "NM":
+                    km = K_harness(cfg, m)
+                    if in_box(box, km) and km == m:
+                        want = raw_cost(spec, km) + penalty_at(pen, km)
+                        if is_finite(want):
+                            out.append(("%s/member-energy-inf-inside-box" % solver, "member %r lies inside the closed strict ranges %r and is left unchanged by the constraints, objective there = %r, but its stored energy is inf" % (m, box, want), {"op_index": si}))
+                            break
                 continue
             km = K_harness(cfg, m)
             if box is not None and not in_box(box, km):
@@ -179,6 +223,12 @@ def mon_c01(spec, rec):
             x_first = rec.cost_calls[0][0]
             if solver in ("NM", "Powell"):
                 E0 = raw_cost(spec, x_first) + penalty_at(pen, x_first)
+                # the initial guess itself (clipped onto the box when it starts outside, then constrained) is the first point
+                # the objective is asked for: inside the closed box it must really be evaluated
+                if box is not None and not spec.get("pushing") and spec.get("x0") is not None:
+                    xi = K_harness(cfg, clip_box(box, list(spec["x0"])))
+                    if in_box(box, xi) and K_harness(cfg, xi) == xi and key_of(xi) != key_of(x_first):
+                        out.append(("%s/initial-guess-not-evaluated" % solver, "the (clipped, constrained) initial guess %r lies inside the closed strict ranges but the first cost call was at %r" % (xi, x_first), {"op_index": si}))
         if E0 is not None and is_finite(E0) and bE is not None and not (bE <= E0):
             if True:
                 out.append(("%s/best-worse-than-initial" % solver, "bestEnergy %r > energy of the initial guess %r" % (bE, E0), {"op_index": si}))
